@@ -62,7 +62,7 @@ Definition pden (kind : pkind) (s : snap) (e : edge) : lasg -> bool :=
   end.
 
 (** [set] is a cube diagram with the literal list [L] *)
-Definition pcube (kind : pkind) (s : snap) (set : edge) (L : list (nat * bool)) : Prop :=
+Definition pkcube (kind : pkind) (s : snap) (set : edge) (L : list (nat * bool)) : Prop :=
   match kind with
   | PBdd => cube_lits view_plain (S (nlevels s)) s set = Some L
   | PBcdd => cube_lits view_bcdd (S (nlevels s)) s set = Some L
@@ -73,7 +73,7 @@ Definition pcube (kind : pkind) (s : snap) (set : edge) (L : list (nat * bool)) 
 Definition pcall_ok (kind : pkind) (s : snap) (k : pcall) : Prop :=
   match k with
   | PKDd e => pgood kind s e
-  | PKSet e set => pgood kind s e /\ pgood kind s set /\ exists L, pcube kind s set L
+  | PKSet e set => pgood kind s e /\ pgood kind s set /\ exists L, pkcube kind s set L
   end.
 
 (** the two records of the C13 files and of the apply files have the same fields *)
@@ -95,9 +95,9 @@ Proof.
     rewrite ?andb_true_iff, ?negb_true_iff, ref_ok_b_spec; tauto.
 Qed.
 
-Lemma pcube_b_spec : forall kind s set, pcube_b kind s set = true <-> exists L, pcube kind s set L.
+Lemma pcube_b_spec : forall kind s set, pcube_b kind s set = true <-> exists L, pkcube kind s set L.
 Proof.
-  intros [] s set; unfold pcube_b, pcube.
+  intros [] s set; unfold pcube_b, pkcube.
   - destruct (cube_lits view_plain (S (nlevels s)) s set) as [L|];
       split; try discriminate; eauto. intros [L E]. discriminate.
   - destruct (cube_lits view_bcdd (S (nlevels s)) s set) as [L|];
@@ -183,7 +183,7 @@ Definition pcall_spec (St : Type) (choice : St -> nat -> edge -> bool * St) (kin
   match k with
   | PKDd e => dd_spec (pden kind) (ppick_cube St choice kind s st e) s st e s' st' (fst r) (snd r)
   | PKSet e set =>
-    st' = st /\ forall L, pcube kind s set L -> pset_spec kind s e s' (fst r) (snd r) L
+    st' = st /\ forall L, pkcube kind s set L -> pset_spec kind s e s' (fst r) (snd r) L
   end.
 
 (** the state after a failure *)
@@ -292,8 +292,8 @@ Proof.
 Qed.
 
 (** the cube's literal list is a function of the literal set *)
-Lemma pcube_fun : forall kind s set L L', pcube kind s set L -> pcube kind s set L' -> L' = L.
-Proof. intros [] s set L L' E E'; unfold pcube in *; congruence. Qed.
+Lemma pcube_fun : forall kind s set L L', pkcube kind s set L -> pkcube kind s set L' -> L' = L.
+Proof. intros [] s set L L' E E'; unfold pkcube in *; congruence. Qed.
 
 (** the invariant and a valid edge, as the manager-level invariant / result
     predicate of [res_safe] *)
